@@ -151,7 +151,7 @@ CHECKS = {
         pkg="./c12", level="fault_enumeration",
         runs=[
             dict(name="enum", run="^TestCrashEnumeration$", shards=(4, 8)),
-            dict(name="random", run="^TestRandomTimeKills$", shards=(1, 4), thorough_only=True),
+            dict(name="random", run="^TestRandomTimeKills$", shards=(2, 8)),
             dict(name="regress", run="^TestRegress", shards=(1, 1)),
         ],
     ),
